@@ -100,11 +100,11 @@ def run(gaf_path, gfa=None, output=None, index=None, nodes=[], regions=[], forma
         with open(index, "rb") as tmp:
             ind = pickle.load(tmp)
 
-        ind_key = sorted(list(ind.keys()), key=lambda x: (x[1], x[2]))
+        # "ref_contig" is the one string key of the index; sorting it together with the node keys compares ("e", "f") with
+        # (contig name, offset) and fails for a contig called "e"
+        ind_key = sorted((k for k in ind.keys() if k != "ref_contig"), key=lambda x: (x[1], x[2]))
         ind_dict = {}
         for i in ind_key:
-            if i == "ref_contig":
-                continue
             ind_dict[i[0]] = i
 
         if regions:
